@@ -7,7 +7,7 @@
    the hidden flag, None when unlisted, never a record beyond the table) and emits each object for
    replay through the stand-alone SymbolVersionTable::new. *)
 EXTENDS SymVer, Abi, Json
-CONSTANTS Encs, Layouts
+CONSTANTS Encs, Layouts, IdxBases      \* IdxBases: offsets added to every version index >= 2 (numeric windows)
 
 EncOf(k) == CASE k = 1 -> <<32, TRUE>> [] k = 2 -> <<32, FALSE>> [] k = 3 -> <<64, TRUE>> [] k = 4 -> <<64, FALSE>>
 W32(n, l) == IF l THEN W4(n) ELSE Rev(W4(n))
@@ -22,14 +22,14 @@ StrTabB == <<0>> \o CatAll([k \in 1..14 |-> <<96 + k, 0>>], 14)
 
 \* ---- models: nNeeds files with na1 / na2 auxes, nDefs definitions with nd1 / nd2 names ----------------
 \* need aux j of file i gets index 2 + (number of earlier auxes) + nDefs ; def d gets index 1 + d  (1-based d)
-Model(nn, na1, na2, nd, dn1, dn2, vs) ==
+Model(nn, na1, na2, nd, dn1, dn2, vs, ib) ==
     LET NA(i) == IF i = 1 THEN na1 ELSE na2
         DN(d) == IF d = 1 THEN dn1 ELSE dn2
-        auxIdx(i, j) == 1 + nd + (IF i = 1 THEN 0 ELSE na1) + j
+        auxIdx(i, j) == ib + 1 + nd + (IF i = 1 THEN 0 ELSE na1) + j
         needs == [i \in 1..nn |-> [file |-> Nm(i),
                                    auxs |-> [j \in 1..NA(i) |-> [name |-> Nm(2 + 2 * i + j), hash |-> W4(1000 * i + j),
                                                                  flags |-> W2(j), other |-> W2(auxIdx(i, j))]]]]
-        defs == [d \in 1..nd |-> [ndx |-> W2(1 + d), flags |-> W2(d - 1), hash |-> W4(77 * d),
+        defs == [d \in 1..nd |-> [ndx |-> W2(ib + 1 + d), flags |-> W2(d - 1), hash |-> W4(77 * d),
                                   names |-> [k \in 1..DN(d) |-> Nm(8 + 2 * d + k)]]]
     IN [versym |-> vs, needs |-> needs, defs |-> defs]
 
@@ -89,9 +89,9 @@ EncDefs(m, lay, l) ==
 VARIABLE c
 Init == c = [stage |-> 0]
 \* versym entries: local, global, each listed index, an unlisted one; plain and hidden
-VsPool(nd, ntot) == LET base == {0, 1} \cup (2..(1 + nd + ntot)) \cup {1 + nd + ntot + 3}
+VsPool(nd, ntot, ib) == LET base == {0, 1} \cup ((ib + 2)..(ib + 1 + nd + ntot)) \cup {ib + 1 + nd + ntot + 3}
                     IN { W2(v) : v \in base } \cup { <<v % 256, 128 + (v \div 256)>> : v \in base }
-Next == \/ c.stage = 0 /\ \E k \in Encs, lay \in Layouts, nn \in 0..2, nd \in 0..2 : c' = [stage |-> 1, enc |-> k, lay |-> lay, nn |-> nn, nd |-> nd]
+Next == \/ c.stage = 0 /\ \E k \in Encs, lay \in Layouts, nn \in 0..2, nd \in 0..2, ib \in IdxBases : c' = [stage |-> 1, enc |-> k, lay |-> lay, nn |-> nn, nd |-> nd, ib |-> ib]
         \/ c.stage = 1 /\ \E na1 \in (IF c.nn >= 1 THEN 0..2 ELSE {0}), na2 \in (IF c.nn >= 2 THEN 1..2 ELSE {0}),
                              dn1 \in (IF c.nd >= 1 THEN 1..2 ELSE {0}), dn2 \in (IF c.nd >= 2 THEN 1..2 ELSE {0}) :
                              c' = [c EXCEPT !.stage = 2] @@ [na1 |-> na1, na2 |-> na2, dn1 |-> dn1, dn2 |-> dn2]
@@ -99,11 +99,11 @@ Next == \/ c.stage = 0 /\ \E k \in Encs, lay \in Layouts, nn \in 0..2, nd \in 0.
 Class == EncOf(c.enc)[1]
 L == EncOf(c.enc)[2]
 \* one symbol per pool entry so that every kind of index is queried
-VsSeq == LET P == VsPool(c.nd, c.na1 + c.na2)
+VsSeq == LET P == VsPool(c.nd, c.na1 + c.na2, c.ib)
              RECURSIVE S(_)
              S(X) == IF X = {} THEN <<>> ELSE LET x == CHOOSE y \in X : TRUE IN <<x>> \o S(X \ {x})
          IN S(P)
-M == Model(c.nn, c.na1, c.na2, c.nd, c.dn1, c.dn2, VsSeq)
+M == Model(c.nn, c.na1, c.na2, c.nd, c.dn1, c.dn2, VsSeq, c.ib)
 NeedB == EncNeeds(M, c.lay, L)
 DefB == EncDefs(M, c.lay, L)
 VersymB == CatAll([i \in 1..Len(VsSeq) |-> Wd2(VsSeq[i], L)], Len(VsSeq))
